@@ -65,7 +65,7 @@ def cases(rng, tier):
 	# combination of absent Host, authority form and protocol only now and then)
 	for t in (b'other.example:99', b'[2001:db8::1]:443', b'192.0.2.7:3128', b'other.example', b'/', b'/p?q', b'*', b'http://example.com/x', b'https://example.com:8443/', b'http://u@example.com/'):
 		for hst in (None, b'h', b'h:81', b'other.example:99'):
-			for ver in (b'1.0', b'1.1'):
+			for ver in (b'1.0', b'1.1', b'1.10', b'1.010', b'1.100', b'1.9', b'0.9'):
 				for mth in (b'CONNECT', b'GET', b'OPTIONS', b'POST'):
 					yield ('t', t, hst, ver, mth)
 	yield ('t', b'/a/../b', b'h', b'1.1')
@@ -266,7 +266,7 @@ def oracle1(case):
 		else:
 			if (u.host, u.port) != (u'localhost', 80) and not case[1].lower().startswith((b'http://', b'https://')):
 				bad.append('host/port %r:%r are not the configured defaults' % (u.host, u.port))
-			if case[3] == b'1.1':
+			if tuple(int(x_) for x_ in case[3].split(b'.')) >= (1, 1):
 				bad.append('an HTTP/1.1 request without a Host field was delivered (the protocol does not allow the field to be absent)')
 		if bad:
 			import re as _re
